@@ -222,6 +222,10 @@ func H_C07_faults() {
 		if fault == fltResetInFlight && r.ConnectionID() == 1 {
 			vGateWait(slow)
 		}
+		if fault == fltWriteFail && r.ConnectionID() == 1 {
+			// a handler that keeps writing after a failed write (e.g. entries, then the final result)
+			_ = w.Write(r.NewResponse(WithResponseCode(ResultSuccess), WithApplicationCode(ApplicationDelResponse)))
+		}
 		err := w.Write(r.NewResponse(WithResponseCode(ResultSuccess), WithApplicationCode(ApplicationDelResponse)))
 		mu.Lock()
 		if err == nil {
